@@ -581,6 +581,37 @@ def _gen_cache(repo: str) -> t.List[str]:
     return out
 
 
+def _gen_chain(cls: ast.ClassDef) -> t.List[str]:
+    """the builder calls `.mode(m)` and `.byName`: do they keep the other part of the writer's state?"""
+    ob = OB + ".builderChain"
+    cp = find_func(cls.body, "copy")
+    ctxt = ast.unparse(cp)
+    if "object_to_dict(self, **kwargs)" not in ctxt or "self.__class__(" not in ctxt:
+        raise Untranslatable(ob, "copy() does not rebuild the writer from all of its fields")
+    md = [st for st in find_func(cls.body, "mode").body if not (isinstance(st, ast.Expr) and isinstance(st.value, ast.Constant))]
+    if len(md) == 1 and _dotted(md[0]) == "return self.copy(_mode=saveMode)":
+        mode_keeps = True
+    else:
+        raise Untranslatable(ob, f"mode() is {' ; '.join(_dotted(x) for x in md)[:90]!r}, not `return self.copy(_mode=saveMode)`")
+    bn = None
+    for st in cls.body:
+        if isinstance(st, ast.FunctionDef) and st.name == "byName":
+            bn = st
+    if bn is None:
+        raise Untranslatable(ob, "no byName property")
+    body = [st for st in bn.body if not (isinstance(st, ast.Expr) and isinstance(st.value, ast.Constant))]
+    if len(body) == 1 and _dotted(body[0]) == "return self.copy(by_name=True)":
+        by_name_keeps = True
+    else:
+        raise Untranslatable(ob, f"byName is {' ; '.join(_dotted(x) for x in body)[:90]!r}, not `return self.copy(by_name=True)`")
+    return [
+        "/-- `.mode(m)` is `self.copy(_mode=m)`: the byName flag (and everything else) survives -/",
+        f"def modeKeepsByName : Bool := {str(mode_keeps).lower()}",
+        "/-- `.byName` is `self.copy(by_name=True)`: the stored mode survives -/",
+        f"def byNameKeepsMode : Bool := {str(by_name_keeps).lower()}",
+    ]
+
+
 def gen_writer(repo: str) -> str:
     cls = find_class(parse(repo, "sqlframe/base/readerwriter.py"), "_BaseDataFrameWriter")
     out = [HEADER, "set_option linter.unusedVariables false", "namespace Sqlframe.Gen", ""]
@@ -593,6 +624,8 @@ def gen_writer(repo: str) -> str:
     out += _gen_duck_write(repo)
     out.append("")
     out += _gen_cache(repo)
+    out.append("")
+    out += _gen_chain(cls)
     out.append("")
     out.append("end Sqlframe.Gen")
     return "\n".join(out) + "\n"
